@@ -247,6 +247,7 @@ class Sched:
           except RuntimeError:
             pass
     if self.failure is not None:
+      self.failure.sched = self
       raise self.failure
 
   def _register(self, t):
